@@ -100,6 +100,8 @@ TRUSTED_BASE = ["Coq 8.16.1 kernel (coqc); no axioms (Print Assumptions: closed 
 ASSUMPTIONS = ["a measurement model reports unavailability only through the validity flags of measure / predictedMeasure / innovation / "
                "getNoiseCovarianceMatrix / freeze, a likelihood model only through the flag of likelihood (no exceptions of their own)",
                "the fault pattern is a function of the call site per phase (all calls of one site within a phase fail or succeed together)",
+               "what getLikelihood() reports on an object moved / assigned from a used one before that object's first own correction is "
+               "not compared (the members behind it are not carried by design; the belief and the skip flag are checked)",
                "predicted and corrected belief are distinct objects (correct(p, p) is exercised and modelled; GPFCorrection does not support it)",
                "a payload delivered next to a TRUE flag has the type the library documents (a MatrixXd); next to a false flag it is arbitrary"]
 
@@ -314,11 +316,6 @@ def make_case(rng, cid, kind, pats, dims=None, sub=None, flags=(), outcomps=None
     ns, ms, cs = [n] * steps, [m] * steps, [comps] * steps
     skc = list(skc) if skc is not None else ["-"] * steps
     isk = list(isk) if isk is not None else ["-"] * steps
-    if life in ("mcu", "mau") and steps > 1:
-        # what a moved-to object reports BEFORE its first own correction is not C12's subject (the move constructors of
-        # KF/UKF/SUKF/BootstrapCorrection carry neither skip_ nor the members behind getLikelihood, GPFCorrection's carries
-        # both): the first step on the new object is never a skipped one, and the command says so explicitly
-        skc[1] = "0"
     # SUKFCorrection::getLikelihood reads the sensor's CURRENT noise covariance with the innovations of the last
     # correction that ran: a skipped correction followed by getLikelihood() under a sensor of another size is a misuse
     fixed_m = kind in FIXED_M and "online" not in flags or (kind == "sukf" and "1" in effective(skc, "skip" in flags))
@@ -616,6 +613,18 @@ def generate(rng, tier):
                 add(kind, [GOOD, p, GOOD], life=life)
                 if tier == "thorough":
                     add(kind, [p, GOOD, p], life=life)
+    # ---- the skip flag travels with the object: set on the source (constructor-time flag or a command before the move), the
+    #      moved / assigned object must skip; the first step on the new object may be a skipped one
+    for kind in KINDS:
+        if kind == "gl":
+            continue
+        for life in LIVES[1:]:
+            if life in ("ma", "mau") and kind not in PF:
+                continue
+            for p in [GOOD, bits("M"), bits("N")]:
+                add(kind, [GOOD, p, GOOD], life=life, flags=("skip",))
+                add(kind, [GOOD, p, GOOD], life=life, skc=["1", "-", "0"])
+                add(kind, [GOOD, GOOD, p], life=life, skc=["-", "1", "-"])
     # ---- a twin object runs complete steps inside every callback of the subject's models
     for kind in KINDS:
         for p in [GOOD, bits("M"), bits("P"), bits("I"), bits("N"), bits("L")]:
@@ -783,6 +792,17 @@ def garbage_step(c, model):
     return None
 
 
+def lik_unpredicted(c, k):
+    """getLikelihood() of an object obtained by move from a USED one, asked before that object has run a correction of its
+    own (every step since the move was a skipped one): the members behind getLikelihood are not carried by the move
+    constructors of KF/UKF/SUKF/BootstrapCorrection nor by BootstrapCorrection's move assignment (the object reports no
+    likelihood until its next correct()), GPFCorrection carries them; the model follows the members of the source.  What
+    is reported there is not C12's subject: not compared.  (The belief IS compared: a carried skip flag must give identity.)"""
+    if c.meta.get("life", "fresh") not in ("mcu", "mau") or k < 1 or c.kind.startswith("gpf_"):
+        return False
+    return all(step(c, j).skip for j in range(1, k + 1))
+
+
 def crash_point(impl):
     """(step, phase) at which the implementation's record ends, if it crashed."""
     if impl.get("crashed") != 1:
@@ -873,7 +893,7 @@ def compare(c, impl, model):
                 ms = model.get("s" + ks) == ["predS" + ks]
                 if (impl.get("ident_state" + ks) == 1) != ms:
                     d.append("ident_state%s: impl %s model term %s" % (ks, impl.get("ident_state" + ks), model.get("s" + ks)[0][:60]))
-        if not full:
+        if not full or lik_unpredicted(c, k):
             continue
         if impl.get("lik_valid" + ks) != model.get("lik_valid" + ks):
             d.append("lik_valid%s: impl %s model %s" % (ks, impl.get("lik_valid" + ks), model.get("lik_valid" + ks)))
@@ -1008,6 +1028,17 @@ def oracle(c, impl, model):
         tag, cannot_use, lik_must_fail = unusable(c, k)
         full = got is None or k < got[0]
         STATS["exception_free_steps"] += 1
+        if tag == "skipped" and kind != "gl":
+            # skip_ in force (set on this object, or on the object it was moved / assigned from): the correction hands back
+            # the predicted belief and consults nothing (C12_skipped_correction_makes_no_call)
+            STATS["skipped_steps_checked"] = STATS.get("skipped_steps_checked", 0) + 1
+            if c.meta.get("life", "fresh") != "fresh":
+                STATS["skipped_steps_checked_on_moved_objects"] = STATS.get("skipped_steps_checked_on_moved_objects", 0) + 1
+            if (impl.get("ident" + ks) != 1 or word(impl, "log" + ks)) and not alias_gpf:
+                parts = [q for q in ("mean", "cov", "w", "shape", "state") if impl.get("ident_%s%s" % (q, ks)) == 0]
+                v.append(("C12:%s:skipped-correction-ran:%s" % (kind, c.meta.get("life", "fresh")),
+                          "step %d: skip_ is in force (subject obtained by: %s), yet the correction made the calls %s and the corrected belief "
+                          "differs from the predicted one in %s" % (k, c.meta.get("life", "fresh"), word(impl, "log" + ks), parts)))
         if cannot_use:
             STATS["steps_checked_identity"] += 1
             if kind == "gl":
@@ -1114,6 +1145,8 @@ def histogram(cases):
             "steps_per_layout": STATS["layouts"],
             "histories_with_sizes_changing_between_calls": STATS["resized_histories"],
             "histories_with_raw_skip_commands": STATS["skip_command_histories"],
+            "skipped_steps_checked": STATS.get("skipped_steps_checked", 0),
+            "skipped_steps_checked_on_moved_or_assigned_objects": STATS.get("skipped_steps_checked_on_moved_objects", 0),
             "histories_of_calls_with_bit_identical_arguments": STATS.get("same_argument_histories", 0),
             "units_decades_state_x_measurement": len(STATS["units_decades"]),
             "excluded_from_generation_and_counted": STATS["excluded"],
